@@ -7,7 +7,7 @@ META = dict(
     technique="explicit-state BFS over env-input histories of enumerated FloScript programs on the real Builder/Skedder; bracketing invariant in every state, event order vs reference interpreter; ExEn exhaustively",
     text="(i) The real Framer.ExEn is called on really-built frames for every labelled forest on up to 4 (quick) / 5 (thorough) frames and every "
          "(active frame, target) pair and compared with the statement's rule. (ii) Every forest program (as C05: transitions to self, ancestors, "
-         "descendants, other subtrees, next; conditional auxiliaries; stop at every reachable state), plus framers / auxiliaries / slaves with nested outlines that are stopped and activated again on the same frames, is explored through every reachable "
+         "descendants, other subtrees, next; conditional auxiliaries; stop at every reachable state), plus cloned moot framers with nested frames (named / insular / reared), framers / auxiliaries / slaves with nested outlines that are stopped and activated again on the same frames, is explored through every reachable "
          "(state x env input); per frame enter/exit alternate, open frames at each tick boundary equal the FULL outlines of running framers and "
          "active auxiliaries (suspended frames included), exit runs are bottom-up and enter runs top-down, nothing stays entered after the run, and "
          "the per-tick sequence of enter/exit/rexit/renter events equals the reference interpreter's.",
@@ -28,6 +28,10 @@ def family():
         kind, var = label.split("/")[1:3]
         if kind in ("repeat1", "now", "donemid") and var == "bits" and \
                 (core.TIER != "quick" or sum(len(s) for s in meta.get("slots", ()) if s) == 1):
+            yield label, prog, meta
+    # cloned framers (named / insular / reared): a clone's frames run their rexit / renter / exit actions like the original's
+    for label, prog, meta in F.fam_clone_shapes():
+        if core.TIER != "quick" or "/under-None/first-None/next-None/" in label:
             yield label, prog, meta
     if core.TIER == "quick":
         yield from F.fam_forest(2, pairs=True)
